@@ -2,6 +2,7 @@ package main
 
 import (
 	"go/ast"
+	"strings"
 
 	"promverif/eng"
 )
@@ -17,7 +18,7 @@ func init() {
 			"snapshot of open appends is taken in one critical section; the per-series ring is only touched under the series lock; every isolation state handed to a chunk reader is closed by it.",
 		Note:           "Trusted: go/packages, go/cfg, receiver-insensitive lock identification (one isolation / series object per function), the caller-holds and start-up exception tables in checker/c05.go.",
 		Covers:         "owners of newAppendID/closeAppend; defer order in Commit; txs.add before success return in the three append siblings and the appendID argument at the commit sites; lockset of isolation.{appendsOpen,appendsOpenList,readsOpen} and memSeries.txs; appendMtx→readMtx order; isolation.State single critical section; isoState creation/closing in head chunk readers; which end of the open-reads list is written and which is read.",
-		NotCover:       "the ring arithmetic in memSeries.iterator (how many ids belong to which chunk), i.e. that the bracket's ids are interpreted correctly; schedules.",
+		NotCover:       "the transaction-id ring itself (txRing) and how ids map to samples beyond the chunk-index convention decided in R6; schedules.",
 		Run:            runC05,
 		MinObligations: 35,
 	})
@@ -152,5 +153,64 @@ func runC05(c *eng.Ctx) {
 		}
 		oc := c.Fn("tsdb:HeadAndOOOChunkReader.Close")
 		oc.Has("R5", p.MethodOn("tsdb:HeadAndOOOChunkReader.cr", "Close"), 1)
+	}
+	// ---- R6 how many of the series' samples precede the chunk being read (added for seed C05-b) ----
+	// The number of append ids to consider is derived from the samples in chunks *before* chunk ix; head chunks
+	// are indexed oldest-first but walked newest-first, so the newest has index count−1 — the same convention
+	// memSeries.chunk uses to look a chunk up.
+	{
+		it := c.Fn("tsdb:memSeries.iterator")
+		lin := func(f *eng.Fn, e ast.Expr) string {
+			l, ok := eng.Linear(f.Info, e)
+			if !ok {
+				return "?" + nodeText(e)
+			}
+			return l.String()
+		}
+		jInit := ""
+		ast.Inspect(it.Body, func(n ast.Node) bool {
+			if as, ok := n.(*ast.AssignStmt); ok && len(as.Lhs) == 1 && nodeText(as.Lhs[0]) == "j" && as.Tok.String() == ":=" {
+				jInit = lin(it, as.Rhs[0])
+			}
+			return true
+		})
+		c.Check("R6", it.Where(), "walking the head chunks newest-first, the index starts at headChunkCount − 1", jInit == "+1*s.headChunkCount.Load() -1", p.Pos(it.Body.Pos()), jInit)
+		it.AstEvery("R6", "newest-first walk of the head chunks", func(n ast.Node) bool {
+			fs, ok := n.(*ast.ForStmt)
+			return ok && fs.Init != nil && nodeText(fs.Init) == "elem := s.headChunks"
+		}, "counts a chunk as preceding exactly when its index is below ix, and steps the index down once per element", func(n ast.Node) bool {
+			b := n.(*ast.ForStmt).Body.List
+			if len(b) < 3 || nodeText(b[len(b)-1]) != "j--" {
+				return false
+			}
+			for _, st := range b {
+				if is, ok := st.(*ast.IfStmt); ok {
+					l, okL := eng.LinearCmp(it.Info, is.Cond)
+					return okL && l == "-1*ix +1*j < 0" && nodeText(is.Body) == "{ previousSamples += chkSamples }"
+				}
+			}
+			return false
+		}, 1)
+		it.AstEvery("R6", "walk of the m-mapped chunks", func(n ast.Node) bool {
+			rs, ok := n.(*ast.RangeStmt)
+			return ok && nodeText(rs.X) == "s.mmappedChunks" && strings.Contains(nodeText(rs.Body), "previousSamples")
+		}, "counts a chunk as preceding exactly when its index is below ix", func(n ast.Node) bool {
+			for _, st := range n.(*ast.RangeStmt).Body.List {
+				if is, ok := st.(*ast.IfStmt); ok {
+					l, okL := eng.LinearCmp(it.Info, is.Cond)
+					return okL && l == "-1*ix +1*j < 0"
+				}
+			}
+			return false
+		}, 1)
+		ck := c.Fn("tsdb:memSeries.chunk")
+		off := ""
+		ast.Inspect(ck.Body, func(n ast.Node) bool {
+			if as, ok := n.(*ast.AssignStmt); ok && len(as.Lhs) == 1 && nodeText(as.Lhs[0]) == "offset" && as.Tok.String() == ":=" {
+				off = lin(ck, as.Rhs[0])
+			}
+			return true
+		})
+		c.Check("R6", ck.Where(), "chunk lookup uses the same convention: steps from the newest = count − ix − 1", off == "+1*headChunksLen -1*ix -1", p.Pos(ck.Body.Pos()), off)
 	}
 }
